@@ -50,8 +50,8 @@ def splits3(m, full):
 
 
 def histories(m, tier):
-    full2 = m <= (5 if tier == "quick" else 7)
-    full3 = m <= (4 if tier == "quick" else 5)
+    full2 = m <= (4 if tier == "quick" else 7)
+    full3 = m <= (3 if tier == "quick" else 5)
     out = []
     if m >= 2:
         out += list(splits2(m, full2))
